@@ -22,7 +22,7 @@
     sum replaced by the whole-microsecond average times the count. *)
 From Coq Require Import ZArith List Bool.
 From AGH Require Import Model.Stats Model.StatsShutdown Proofs.Stats Proofs.StatsExt Proofs.StatsTops Proofs.StatsCut
-  Proofs.StatsShutdown Proofs.StatsCut Proofs.StatsUpstreams.
+  Proofs.StatsShutdown Proofs.StatsCut Proofs.StatsUpstreams Model.StatsWorker Proofs.StatsWorker.
 From AGH Require Base.Conc Proofs.StatsConc.
 Import ListNotations.
 Local Open Scope Z_scope.
@@ -596,3 +596,130 @@ Proof.
           (conj (proj2 (proj2 close_before_fix_ungated)) (conj close_before_fix_deadlocks close_before_fix_blocks_updates)))).
 Qed.
 Print Assumptions C09_shutdown_before_fix_refuted.
+
+(** * Round 6: the periodic worker as part of the system (Model/StatsWorker.v)
+
+    [Update] adds to the current unit whatever its id is; the id is changed by
+    ONE goroutine, the worker started by Start, which reads the id source
+    ([WRead] / [TRead]), then takes the locks and rolls over if the id differs
+    ([WApply] / [TApply]), then sleeps.  "Counted in the hour that was current
+    when it was counted" is therefore true of the code only up to the worker's
+    sleep; this is said here precisely. *)
+
+(** Untimed.  From any state with the database open and a limit of at least an
+    hour: after a pass of the worker that read the id source at [w_clk w]
+    (updates and any changes of the id source between its read and its locked
+    part), and until the locked part of the next pass, the current unit
+    carries exactly that hour: every query counted between two passes is
+    attributed to the hour that was current at the earlier one's read. *)
+Theorem C09_counted_in_hour_of_last_wake : forall w m h2,
+  wgood w -> forallb quiet m = true -> forallb no_apply h2 = true ->
+  let w' := wrun w ([WRead] ++ m ++ [WApply] ++ h2) in
+  cur_id (w_st w') = w_clk w /\ wgood w'.
+Proof. exact counted_in_hour_of_last_pass. Qed.
+Print Assumptions C09_counted_in_hour_of_last_wake.
+
+(** Timed.  [pol] is how long the worker sleeps after a pass that found
+    nothing to roll over, [lat] bounds how long a pass that is due takes to
+    get done (scheduling, the two mutexes).  For every history of updates,
+    passing time, steps of the wall clock of ANY size (gaps of many hours) and
+    passes that follows the policy: at every moment the current unit's hour is
+    the hour the clock showed at some instant of the history at most
+    [P + 2 lat] before. *)
+Theorem C09_current_hour_within_tick : forall pol P lat W0 h,
+  policy_bounded pol P -> 0 <= lat -> start_ok W0 ->
+  tvalid_hist pol lat W0 h = true ->
+  let W := trun pol W0 h in
+  exists W1, In W1 (ttrace pol W0 h) /\
+    cur_id (t_st W) = hour_of (t_wall W1) /\
+    t_now W - (P + 2 * lat) <= t_now W1 <= t_now W.
+Proof. exact current_hour_within_tick. Qed.
+Print Assumptions C09_current_hour_within_tick.
+
+(** The clause of the property as the code has it: a query counted at instant
+    [t] is added to the current unit (and to nothing else: [update]), whose
+    hour is hour(t') for an instant [t'] of the history so far with
+    [t - tick <= t' <= t], [tick = P + 2 lat]. *)
+Theorem C09_attribution_within_tick : forall pol P lat W0 h1 e h2,
+  policy_bounded pol P -> 0 <= lat -> start_ok W0 ->
+  tvalid_hist pol lat W0 (h1 ++ TUpdate e :: h2) = true ->
+  let W := trun pol W0 h1 in
+  let W' := Model.StatsWorker.tstep pol W (TUpdate e) in
+  t_st W' = update (t_st W) e /\ cur_id (t_st W') = cur_id (t_st W) /\
+  exists W1, In W1 (ttrace pol W0 h1) /\
+    cur_id (t_st W) = hour_of (t_wall W1) /\
+    t_now W - (P + 2 * lat) <= t_now W1 <= t_now W.
+Proof. exact attribution_within_tick. Qed.
+Print Assumptions C09_attribution_within_tick.
+
+(** stats.go as it is sleeps one second: tick = 1000 ms + 2 lat. *)
+Theorem C09_attribution_as_written : forall lat W0 h1 e h2,
+  0 <= lat -> start_ok W0 ->
+  tvalid_hist policy_as_written lat W0 (h1 ++ TUpdate e :: h2) = true ->
+  let W := trun policy_as_written W0 h1 in
+  exists W1, In W1 (ttrace policy_as_written W0 h1) /\
+    cur_id (t_st W) = hour_of (t_wall W1) /\
+    t_now W - (1000 + 2 * lat) <= t_now W1 <= t_now W.
+Proof. exact attribution_as_written. Qed.
+Print Assumptions C09_attribution_as_written.
+
+Theorem C09_attribution_example :
+  start_ok ex_world0 /\
+  tvalid_hist policy_as_written 5 ex_world0 ex_good = true /\
+  let W := trun policy_as_written ex_world0 ex_good in
+  cur_id (t_st W) = 490005 /\ u_total (cur (t_st W)) = 1 /\
+  rep CTotal (t_st W) = 3 /\ t_now W = 1003 /\ t_due W = 2003.
+Proof. exact attribution_example. Qed.
+Print Assumptions C09_attribution_example.
+
+(** The policy "nothing to do until the next hour begins" (sleep until the
+    wall clock's next full hour): a history that follows it to the millisecond
+    ([lat] = 0) in which the clock is stepped by five hours right after an
+    idle pass; a query counted 50 minutes later is accepted, the clock shows
+    hour + 5, and no instant of the last 50 minutes had the hour the query is
+    attributed to.  Hence the bound of [C09_attribution_within_tick] fails for
+    that policy for every tick up to 50 minutes. *)
+Theorem C09_sleep_until_next_hour_refuted :
+  (exists W0 h1 e h2,
+    start_ok W0 /\
+    tvalid_hist policy_until_next_hour 0 W0 (h1 ++ TUpdate e :: h2) = true /\
+    let W := trun policy_until_next_hour W0 h1 in
+    accepts (t_st W) e = true /\
+    hour_of (t_wall W) = cur_id (t_st W) + 5 /\
+    forall W1, In W1 (ttrace policy_until_next_hour W0 h1) ->
+      t_now W - 3000000 <= t_now W1 -> cur_id (t_st W) <> hour_of (t_wall W1)) /\
+  ~ (forall W0 h1 e h2, start_ok W0 ->
+       tvalid_hist policy_until_next_hour 0 W0 (h1 ++ TUpdate e :: h2) = true ->
+       let W := trun policy_until_next_hour W0 h1 in
+       exists W1, In W1 (ttrace policy_until_next_hour W0 h1) /\
+         cur_id (t_st W) = hour_of (t_wall W1) /\ t_now W - 3000000 <= t_now W1 <= t_now W).
+Proof. exact (conj sleep_until_next_hour_refuted within_tick_fails_for_next_hour). Qed.
+Print Assumptions C09_sleep_until_next_hour_refuted.
+
+(** The system with the worker is a history of Model/Stats.v: the worker's
+    passes are the flushes, each with the id it read; the timed machine is the
+    untimed one with instants attached. *)
+Theorem C09_worker_history_is_op_history : forall h w,
+  w_st (wrun w h) = Stats.run (w_st w) (wops w h).
+Proof. exact worker_history_is_op_history. Qed.
+Print Assumptions C09_worker_history_is_op_history.
+
+Theorem C09_timed_is_untimed : forall pol h W,
+  t_in (trun pol W h) = wrun (t_in W) (tprojs pol W h).
+Proof. exact timed_is_untimed. Qed.
+Print Assumptions C09_timed_is_untimed.
+
+(** Totals = counted queries inside the window, for the system with the
+    worker: the id source never goes back ([wenv_hist]), updates and changes
+    of the id source in any order with the worker's reads and locked parts;
+    [g_ev g i k] counts a query in the hour of the unit it was added to, which
+    by the theorems above is the hour the worker last read. *)
+Theorem C09_worker_conservation : forall id ms en h k,
+  init_ok id ms -> wenv_hist id h ->
+  let s := w_st (wrun (winit id ms en) h) in
+  let g := grun (ginit id ms en) (wops (winit id ms en) h) in
+  rep k s <= wsum s (fun i => g_ev g i k) /\
+  wsum s (fun i => if i <=? g_low g then 0 else g_ev g i k) <= rep k s /\
+  (g_raised g = false -> rep k s = wsum s (fun i => g_ev g i k)).
+Proof. exact worker_conservation. Qed.
+Print Assumptions C09_worker_conservation.
